@@ -280,6 +280,9 @@ type Finding struct {
 }
 
 func loadFindings() ([]Finding, error) {
+	if os.Getenv("VERIF_IGNORE_KNOWN") != "" {
+		return nil, nil // maintenance: show every violation, e.g. while trying out a repair
+	}
 	b, err := os.ReadFile(filepath.Join(VerifDir, "KNOWN_FINDINGS.txt"))
 	if err != nil {
 		if os.IsNotExist(err) {
